@@ -235,6 +235,9 @@ def run(ctx: RuleContext, p: Program) -> None:
     ctx.try_rule(idxspace.rule_idx_space, p, 'IDX-SPACE')
     from . import round4 as _r4
     ctx.try_rule(_r4.rule_iter_once, p, 'ITER-ONCE')
+    from . import nodesem
+    ctx.try_rule(nodesem.rule_node_sem, p, 'NODE-SEM', 3 if ctx.tier == 'quick' else 4)
+    ctx.try_rule(nodesem.rule_unord_sem, p, 'UNORD-SEM')
     ctx.not_decided += ['full separator arithmetic for every (index, arity, position)', 'store block boundaries (C07)',
                         'identity of tokens outside the edit window (runtime)']
     ctx.assumptions += ['TokenStore.insert_after/insert_before/remove/splice semantics (C07)']
